@@ -233,7 +233,7 @@ func genC04Script(rt *rapid.T) script {
 	s.Peers, s.Plans = genPeerSpecs(rt, n, prof)
 	dirs := make([]string, n)
 	for i := range s.Peers {
-		s.Peers[i].Hold = pick(rt, "hold", 3, 6, 9)
+		s.Peers[i].Hold = pick(rt, "hold", 3, 6, 9, 0) // 0: no keepalive/hold timers at all
 		s.Peers[i].IdleHoldMs = 1000
 		s.Peers[i].ConnRetryMs = 2000
 		dirs[i] = pick(rt, "dir", "in", "out")
@@ -257,7 +257,7 @@ func genC04Script(rt *rapid.T) script {
 		s.Bursts = append(s.Bursts, []act{{Op: "send", P: pi, Dir: dirs[pi], Msg: "open"}}, []act{{Op: "send", P: pi, Dir: dirs[pi], Msg: "keepalive"}})
 	}
 	writeAct := func(pi int, back int) act {
-		h := int64(s.Peers[pi].Hold) * 1000000000
+		h := int64(max(s.Peers[pi].Hold, 3)) * 1000000000
 		return act{Op: "write", P: pi, Back: back, G: rapid.IntRange(1, 8).Draw(rt, "g"), N: rapid.IntRange(1, 8).Draw(rt, "n"),
 			Len:   pick(rt, "wlen", 16, 19, 20, 255, 256, 4076, 4077, rapid.IntRange(16, 400).Draw(rt, "wlenr")),
 			GapNs: pick[int64](rt, "gap", 0, 0, 1000, h/3-1, h/3, h/6, 1000000000)}
@@ -278,7 +278,7 @@ func genC04Script(rt *rapid.T) script {
 			for i := range s.Peers {
 				b = append(b, act{Op: "send", P: i, Dir: dirs[i], Msg: pick(rt, "alive", "keepalive", "update"), Len: 5})
 			}
-			h := int64(s.Peers[pi].Hold) * 1000000000
+			h := int64(max(s.Peers[pi].Hold, 3)) * 1000000000
 			b = append(b, act{Op: "advance", Ns: pick[int64](rt, "adv", h/3, h/3+1000000, h/3-1000000, h/2, 1000000, h-1000000)})
 			s.Bursts = append(s.Bursts, b)
 		}
@@ -301,7 +301,10 @@ func genC04Script(rt *rapid.T) script {
 		case "del":
 			b = append(b, act{Op: "del", P: pi})
 		case "silence":
-			b = append(b, act{Op: "advance", Ns: int64(s.Peers[pi].Hold)*1000000000 + 1000000})
+			b = append(b, act{Op: "advance", Ns: int64(max(s.Peers[pi].Hold, 3))*1000000000 + 1000000})
+			if s.Peers[pi].Hold == 0 {
+				b = append(b, act{Op: "rclose", P: pi, Dir: dirs[pi]}) // silence does not end a zero-hold session
+			}
 		}
 		b = append(b, writeAct(pi, 0))
 		s.Bursts = append(s.Bursts, b)
